@@ -8,6 +8,7 @@ from pygradflow.linear_solver import LinearSolverError
 from pygradflow.params import Params
 from pygradflow.problem import Problem
 from pygradflow.step.step_solver_error import StepSolverError
+from pygradflow.util import keep_rows
 
 from .scaled_step_solver import ScaledStepSolver
 
@@ -42,38 +43,21 @@ class AsymmetricStepSolver(ScaledStepSolver):
         n = self.n
 
         active_set = self.active_set
+        dtype = self.params.dtype
 
         assert matrix.shape == (n + m, n + m)
 
-        data = matrix.data
-        cols = matrix.indices
-        col_index = matrix.indptr
+        active_rows = np.concatenate([active_set, np.zeros((m,), dtype=bool)])
 
-        for j in range(n):
-            active = active_set[j]
+        # Drop the active rows and put a unit entry on their diagonal. This
+        # must not rely on the diagonal being structurally present: it is
+        # missing if an entry of the Hessian cancels lambda exactly.
+        cleared = keep_rows(matrix, np.logical_not(active_rows))
+        unit = sp.sparse.diags(
+            [active_rows.astype(dtype)], [0], shape=(n + m, n + m), dtype=dtype
+        )
 
-            if not active:
-                continue
-
-            col_start = col_index[j]
-            col_end = col_index[j + 1]
-
-            curr_data = data[col_start:col_end]
-            curr_cols = cols[col_start:col_end]
-
-            assert curr_data.shape == curr_cols.shape
-
-            (col_nnz,) = curr_data.shape
-
-            k = np.searchsorted(curr_cols, j)
-
-            curr_data[:] = 0.0
-            curr_data[k] = 1.0
-            curr_cols[k] = j
-
-            assert (curr_cols[:-1] <= curr_cols[1:]).all()
-            assert (0 <= curr_cols).all()
-            assert (curr_cols < n + m).all()
+        return (cleared + unit).tocsr()
 
     def compute_deriv(self, active_set: np.ndarray) -> sp.sparse.spmatrix:
         lamb = 1.0 / self.dt
@@ -99,7 +83,7 @@ class AsymmetricStepSolver(ScaledStepSolver):
             format="csr",
         )
 
-        self.overwrite_active_rows(deriv)
+        deriv = self.overwrite_active_rows(deriv)
 
         assert deriv.dtype == self.params.dtype
 
